@@ -459,6 +459,16 @@ package wire
 //@   arith bv
 //@   requires p != nil
 //@   ensures [length-consistent] implies(result == nil, len(b) >= expectedLen && expectedLen >= 1)
+//@   let val = lastresult("Parse", 0)
+//@   let parsed = called("Parse") == 1 && lastresult("Parse", 2) == nil && lastresult("Parse", 1) == expectedLen
+//@   ensures [parse-failure-rejected] implies(!parsed, result != nil)
+//@   ensures [stream-counts-in-range] implies(parsed && (paramID == initialMaxStreamsBidiParameterID || paramID == initialMaxStreamsUniParameterID), iff(result == nil, val <= 1152921504606846976))
+//@   ensures [stream-counts-value] implies(result == nil && paramID == initialMaxStreamsBidiParameterID, uint64(p.MaxBidiStreamNum) == val) && implies(result == nil && paramID == initialMaxStreamsUniParameterID, uint64(p.MaxUniStreamNum) == val)
+//@   ensures [ack-delay-exponent-in-range] implies(parsed && paramID == ackDelayExponentParameterID, iff(result == nil, val <= 20) && implies(result == nil, uint64(p.AckDelayExponent) == val))
+//@   ensures [max-ack-delay-in-range] implies(parsed && paramID == maxAckDelayParameterID, iff(result == nil, val <= 16383))
+//@   ensures [max-udp-payload-size-in-range] implies(parsed && paramID == maxUDPPayloadSizeParameterID, iff(result == nil, val >= 1200) && implies(result == nil, uint64(p.MaxUDPPayloadSize) == val))
+//@   ensures [active-connection-id-limit-in-range] implies(parsed && paramID == activeConnectionIDLimitParameterID, iff(result == nil, val >= 2) && implies(result == nil, p.ActiveConnectionIDLimit == val))
+//@   ensures [windows-value] implies(result == nil && paramID == initialMaxDataParameterID, uint64(p.InitialMaxData) == val) && implies(result == nil && paramID == initialMaxStreamDataBidiLocalParameterID, uint64(p.InitialMaxStreamDataBidiLocal) == val) && implies(result == nil && paramID == initialMaxStreamDataBidiRemoteParameterID, uint64(p.InitialMaxStreamDataBidiRemote) == val) && implies(result == nil && paramID == initialMaxStreamDataUniParameterID, uint64(p.InitialMaxStreamDataUni) == val)
 //@   modifies p.*
 
 //@ func (p *TransportParameters) readPreferredAddress
@@ -788,4 +798,46 @@ package wire
 
 //@ func (h *ExtendedHeader) Log
 //@   trusted logging only
+//@   modifies nothing
+
+// ---------------- remembered transport parameters (0-RTT) ----------------
+// 0-RTT may only be accepted if no limit the client remembered has been reduced (RFC 9000 7.4.1) and the connection ID
+// limit is unchanged; an update after resumption must not reduce any remembered limit either.
+//@ func (p *TransportParameters) ValidFor0RTT
+//@   props C13
+//@   let dgOK = saved.MaxDatagramFrameSize == -1 || (p.MaxDatagramFrameSize != -1 && p.MaxDatagramFrameSize >= saved.MaxDatagramFrameSize)
+//@   ensures [no-limit-reduced] iff(result, dgOK && p.InitialMaxStreamDataBidiLocal >= saved.InitialMaxStreamDataBidiLocal && p.InitialMaxStreamDataBidiRemote >= saved.InitialMaxStreamDataBidiRemote && p.InitialMaxStreamDataUni >= saved.InitialMaxStreamDataUni && p.InitialMaxData >= saved.InitialMaxData && p.MaxBidiStreamNum >= saved.MaxBidiStreamNum && p.MaxUniStreamNum >= saved.MaxUniStreamNum && p.ActiveConnectionIDLimit == saved.ActiveConnectionIDLimit)
+//@   modifies nothing
+//@ func (p *TransportParameters) ValidForUpdate
+//@   props C13
+//@   let dgOK = saved.MaxDatagramFrameSize == -1 || (p.MaxDatagramFrameSize != -1 && p.MaxDatagramFrameSize >= saved.MaxDatagramFrameSize)
+//@   ensures [no-limit-reduced] iff(result, dgOK && p.InitialMaxStreamDataBidiLocal >= saved.InitialMaxStreamDataBidiLocal && p.InitialMaxStreamDataBidiRemote >= saved.InitialMaxStreamDataBidiRemote && p.InitialMaxStreamDataUni >= saved.InitialMaxStreamDataUni && p.InitialMaxData >= saved.InitialMaxData && p.MaxBidiStreamNum >= saved.MaxBidiStreamNum && p.MaxUniStreamNum >= saved.MaxUniStreamNum && p.ActiveConnectionIDLimit >= saved.ActiveConnectionIDLimit)
+//@   modifies nothing
+
+// ---------------- the Frame interface as seen by callers ----------------
+// Every in-tree frame type's Append only appends to (or re-allocates) the slice it is given and reads the frame.
+//@ iface (f wire.Frame) Append
+//@   ensures [extends] implies(result1 == nil, len(result0) >= len(b))
+//@   ensures [in-place-or-fresh] cap(result0) == 0 || samebacking(result0, b) || isfresh(result0)
+//@   modifies b[*]
+//@ iface (f wire.Frame) Length
+//@   ensures result >= 0
+//@   modifies nothing
+
+//@ func (h *ExtendedHeader) ParsedLen
+//@   props C05 C08
+//@   ensures result == h.parsedLen
+//@   modifies nothing
+//@ func (h *Header) toExtendedHeader
+//@   props C05 C08
+//@   ensures result != nil && result.Header.parsedLen == h.parsedLen && result.Header.Type == h.Type
+//@   fresh
+//@   modifies nothing
+//@ func (h *Header) ParseExtended
+//@   props C05 C08
+//@   arith bv
+//@   requires len(data) >= 1 && len(data) <= 1099511627776 && 0 <= h.parsedLen && h.parsedLen <= 1099511627776
+//@   ensures [header-or-error] implies(result0 == nil, result1 != nil)
+//@   ensures [parsed] implies(result0 != nil, 1 <= result0.PacketNumberLen && result0.PacketNumberLen <= 4 && result0.parsedLen == h.parsedLen + int64(result0.PacketNumberLen) && result0.parsedLen <= len(data) && 0 <= result0.PacketNumber)
+//@   ensures [reserved-bits-reported] implies(result0 != nil, iff(result1 != nil, data[0] & 12 != 0))
 //@   modifies nothing
